@@ -4,5 +4,5 @@ cd /verif
 : > seeded/RESULTS.txt
 for d in seeded/C*; do
   id=$(basename $d)
-  tools/try_seed.sh $id $id 2>&1 | cut -c1-400 | head -4 >> seeded/RESULTS.txt
+  tools/try_seed.sh $id ${id%b} 2>&1 | cut -c1-400 | head -4 >> seeded/RESULTS.txt
 done
